@@ -58,8 +58,10 @@ def main():
     acc = read("circuits/src/verifier/accumulator.rs")
     fd = body_of(acc, "pub fn from_dual_msm(")
     neg_g_label = need(r'CommitmentLabel::Custom\(s\) if s == "([^"]*)"', fd, "custom fixed label of from_dual_msm").group(1)
-    neg_g_key = need(r'fixed_base_scalars\.insert\("([^"]*)"\.into\(\), \*scalar\)', fd, "key of the custom fixed label").group(1)
+    neg_g_key = need(r'\*fixed_base_scalars\.entry\("([^"]*)"\.into\(\)\)\.or_insert\(S::F::ZERO\) \+= \*scalar;', fd, "key of the custom fixed label").group(1)
+    # scalars of a repeated fixed base add up (348977f): no `insert`, three `entry(..).or_insert(ZERO) +=`
     n_insert = len(re.findall(r"fixed_base_scalars\.insert\(", fd))
+    n_entry = len(re.findall(r"\*fixed_base_scalars\.entry\([^;]*\)\.or_insert\(S::F::ZERO\) \+= \*scalar;", fd))
     n_assert = len(re.findall(r"assert_eq!\(fixed_bases\.get\(", fd))
     accum = body_of(acc, "pub fn accumulate(accs: &[Self]) -> Self")
     need(r"r\.pow\(\[i as u64\]\)", accum, "powers r^i in Accumulator::accumulate")
@@ -107,8 +109,10 @@ def main():
         f"def negGKeyFromDual : String := {lean_str(neg_g_key)}",
         "/-- Label `multi_prepare` gives to the term `v·(-G)`. -/",
         f"def negGLabelPrepare : String := {lean_str(neg_g_prepare)}",
-        "/-- Number of `fixed_base_scalars.insert` / `assert_eq!(fixed_bases.get(..))` sites of `process_msm`. -/",
+        "/-- Number of overwriting `fixed_base_scalars.insert`, of adding `*entry(..).or_insert(ZERO) += *scalar`",
+        "and of `assert_eq!(fixed_bases.get(..))` sites of `process_msm`. -/",
         f"def fromDualInsertSites : Nat := {n_insert}",
+        f"def fromDualEntryAddSites : Nat := {n_entry}",
         f"def fromDualAssertSites : Nat := {n_assert}",
         "/-- Error values (variant names). -/",
         f"def guardBatchLenErr : String := {lean_str(guard_len_err)}",
